@@ -1379,6 +1379,8 @@ pub fn injected_positions(_ctx: &Ctx, rng: &mut Rng, o: &mut Out) {
     files.push((format!("src/t{k}.js"), format!("{lead}const A{k} = {tag}`{body}`{nl}foo({k}){nl}const B{k} = styled.a`color: red;`{nl}")));
   }
   files.push(("src/page.html".into(), "<p>\u{e9}</p>\n<script\n  type=\"module\"\n>\nfoo(1); // \u{4e2d}\n  foo('\u{e9}')\n</script>\n<style\n  media=\"print\">\n.a { margin: 0; }\n</style>\n".into()));
+  // one language injected under several names: each script is a document of its own
+  files.push(("src/names.html".into(), "<script>foo(1)</script>\n<script lang=\"javascript\">foo(2)</script>\n<script lang=\"js\">\n  foo(3)</script>\n".into()));
   for (rel, text) in &files {
     w(rel, text);
   }
@@ -1406,6 +1408,9 @@ pub fn injected_positions(_ctx: &Ctx, rng: &mut Rng, o: &mut Out) {
     let file = v["file"].as_str().unwrap_or("").trim_start_matches("./").to_string();
     let Some((_, src)) = files.iter().find(|f| f.0 == file) else { continue };
     *per_rule.entry(v["ruleId"].as_str().unwrap_or("").to_string()).or_default() += 1;
+    if file == "src/names.html" {
+      *per_rule.entry("js-call in names.html".to_string()).or_default() += 1;
+    }
     let mut nodes: Vec<(String, Value)> = vec![("match".into(), v.clone())];
     if let Some(m) = v["metaVariables"]["single"].as_object() {
       for (k, n) in m {
@@ -1438,6 +1443,10 @@ pub fn injected_positions(_ctx: &Ctx, rng: &mut Rng, o: &mut Out) {
   if per_rule.get("css-decl").copied().unwrap_or(0) != want_decl {
     o.oracle("injected-positions", false, json!({"fp": "findings of injected documents are missing (regions of two injection rules for one language interleave)",
       "css-decl": per_rule.get("css-decl"), "expected": want_decl}));
+  }
+  if per_rule.get("js-call in names.html").copied().unwrap_or(0) != 3 {
+    o.oracle("injected-positions", false, json!({"fp": "findings of injected documents are missing (one language injected under several names)",
+      "reported": per_rule.get("js-call in names.html"), "expected": 3}));
   }
   // the generator did produce embedded matches of every kind
   for rid in ["css-decl", "css-val", "js-call"] {
